@@ -128,17 +128,51 @@ def big_stream(ctx):
         ctx.count('big_documents', lab.split('-')[0].rstrip('0123456789'))
 
 
+def text_forms(ctx, v, w, p):
+    """concat with one or both documents given as JSON TEXT (the crate then works on parsed trees: a separate implementation of
+    the same edit): the expected result is the concatenation of the trees the arguments denote"""
+    r = ctx.rng
+    if not (gen.is_finite(v) and gen.is_finite(w)) or r.random() >= p:
+        return
+    tv, tw = gen.json_text(v, r), gen.json_text(w, r)
+    if tv[:1] == b' ' or tw[:1] == b' ':
+        return
+    fv, fw = gen.text_form(v), gen.text_form(w)
+    e, we = gen.hexarg(gen.enc(v)), gen.hexarg(gen.enc(w))
+    ctx.add('concat %s %s' % (gen.hexarg(tv), gen.hexarg(tw)), meta=('concat', fv, fw))
+    ctx.add('concat %s %s' % (e, gen.hexarg(tw)), meta=('concat', v, fw))
+    ctx.add('concat %s %s' % (gen.hexarg(tv), we), meta=('concat', fv, w))
+    ctx.count('concat_with_a_json_text_argument')
+
+
+def text_stream(ctx):
+    """deterministic: object pairs of different sizes with shared keys (first / middle / last, one / all), both orders, every
+    text / JSONB combination -- a seeded `merge the smaller map into the larger` in the tree branch let the LEFT value win when
+    the left object is the smaller one; arrays and scalars against them for the wrapping arms"""
+    u = lambda n: ('u', n)
+    small = [('o', [(b'b', u(1))]), ('o', [(b'a', u(1)), (b'z', ('s', b'l'))]), ('o', [(b'', ('n',))]), ('o', [])]
+    large = [('o', [(b'a', u(10)), (b'b', u(20)), (b'c', u(30))]), ('o', [(b'', u(5)), (b'a', ('a', [u(1)])), (b'b', ('o', [])), (b'y', u(8)), (b'z', u(9))]),
+             ('o', [(('k%02d' % i).encode(), u(i)) for i in range(12)] + [(b'z', u(99))])]
+    other = [('a', [u(1), ('o', [(b'b', u(2))])]), ('a', []), u(7), ('s', b'x'), ('n',)]
+    for a in small + large:
+        for b in small + large + other:
+            for x, y in ((a, b), (b, a)):
+                text_forms(ctx, x, y, 2.0)
+
+
 def generate(ctx):
     r = ctx.rng
     ds = common.docs(ctx, ctx.scale(300, 10000), finite=False)
     ctx.ds = ds
     wide_stream(ctx)
     big_stream(ctx)
+    text_stream(ctx)
     for v in ds:
         e = gen.hexarg(gen.enc(v))
         w = r.choice(ds)
         we = gen.hexarg(gen.enc(w))
         ctx.add('concat %s %s' % (e, we), meta=('concat', v, w))
+        text_forms(ctx, v, w, 0.25)
         ctx.add('strip_nulls %s' % e, meta=('strip', v))
         ln = len(v[1]) if v[0] == 'a' else 1
         if ln <= 40:
